@@ -154,11 +154,21 @@ fn lines_strategy(tier: Tier, faults: bool) -> BoxedStrategy<Vec<String>> {
     let max_rec = tier.pick(4, 6);
     // one record in twelve has a chosen number (0-40) of distinct unknown keys in front of, or
     // between, its other lines
-    let record = (pkgname_line(), prop::collection::vec(key_line(faults), 0..10), prop::option::weighted(0.08, (crate::engine::gen::interesting_len(40), any::<u16>()))).prop_map(|(p, mut ls, many)| {
+    let record = (pkgname_line(), prop::collection::vec(key_line(faults), 0..10), prop::option::weighted(0.15, (crate::engine::gen::interesting_len(40), any::<u16>()))).prop_map(|(p, mut ls, many)| {
         if let Some((n, at)) = many {
             let k = idx(at, ls.len() + 1);
             for i in 0..n {
                 ls.insert(k, format!("UNKNOWN_{}=v{}", i, i));
+            }
+            // and in front of one line another line that ends in that line's whole text (an
+            // unknown key with a longer name, or a value that quotes the next line)
+            if !ls.is_empty() {
+                let j = idx(at.wrapping_mul(31), ls.len());
+                let t = ls[j].trim().to_string();
+                if !t.is_empty() && !t.starts_with("PKGNAME") {
+                    let pre = if n % 2 == 0 { format!("MASTER_{}", t) } else { format!("PKG_SKIP_REASON=broken since {}", t) };
+                    ls.insert(j, pre);
+                }
             }
         }
         ls.insert(0, p);
